@@ -1155,3 +1155,34 @@ def len_eq_all_params(F, fs, code):
             if prob:
                 probs.append("%s: %s" % (key, prob))
     return (not probs), ("; ".join(probs[:2]) or "len = write return on every value for %d configurations (whole parameter range)" % len(jobs))
+
+
+def run_len_tables(chk, F, fs, tier, rule):
+    """the length functions with a LEN table give, with the table option on, exactly the lengths they give with it off, for every
+    64-bit value (both evaluated on the whole domain by the value-partition interpreter; constant per cell)"""
+    extra = [("zeta%d[table=1]" % k, "codes::zeta::len_zeta_param", {"USE_TABLE": True}, (("usize", k),), {}, False, U64MAX, True, True) for k in (1, 2, 4)]
+    res = evaluate(F, fs, [j for j in len_jobs(tier) if j[0].startswith(("gamma[", "delta[", "zeta3[", "zeta1[", "zeta2[", "zeta4["))] + extra)
+    pairs = [("gamma.len", "gamma[table=1]", "gamma[table=0]"), ("delta.len", "delta[table=1,gamma_table=0]", "delta[table=0,gamma_table=0]"),
+             ("delta.len[gamma_table]", "delta[table=1,gamma_table=1]", "delta[table=0,gamma_table=0]"),
+             ("delta.len[gamma_table only]", "delta[table=0,gamma_table=1]", "delta[table=0,gamma_table=0]"), ("zeta.len", "zeta3[table=1]", "zeta3[table=0]")] + \
+        [("zeta.len[k=%d, table of another k]" % k, "zeta%d[table=1]" % k, "zeta%d[table=0]" % k) for k in (1, 2, 4)]
+
+    class C:
+        def __init__(self, d):
+            self.y0, self.y1, self.d = d["y0"], d["y1"], d
+    for key, on, off in pairs:
+        ra, rb = res.get(on), res.get(off)
+        if ra is None or rb is None or "unsupported" in ra or "unsupported" in rb:
+            chk.bad(rule, key, "length function %s cannot be evaluated: %s" % (key, (ra or {}).get("unsupported") or (rb or {}).get("unsupported") or "missing"))
+            continue
+        prob = None
+        n = 0
+        for lo, hi, a, b in overlay([C(c) for c in ra["cells"]], [C(c) for c in rb["cells"]]):
+            if lo > U64MAX - 1:
+                continue
+            n += 1
+            va, vb = a.d["ret"], b.d["ret"]
+            if a.d["status"] != "ok" or b.d["status"] != "ok" or not is_const(va) or not is_const(vb) or va[2] != vb[2]:
+                prob = prob or "on [%d, %d] the length with the table option is %s, without it %s" % (
+                    lo, hi, va[2:4] if va else a.d["why"], vb[2:4] if vb else b.d["why"])
+        chk.expect(rule, key, prob is None and n > 0, "%s: %s" % (key, prob or "nothing compared"), sample={"fn": key, "cells": n})
